@@ -28,14 +28,33 @@ Proof.
   - apply HU. induction ts as [|t ts IHts]; constructor; [apply IH|exact IHts].
 Qed.
 
-Lemma oname_eqb_eq a b : oname_eqb a b = true -> a = b.
+Lemma olab_eqb_eq a b : olab_eqb a b = true -> a = b.
 Proof.
   destruct a, b; cbn; intros H; try discriminate; try reflexivity.
   apply Nat.eqb_eq in H. subst. reflexivity.
 Qed.
 
-Lemma oname_eqb_refl a : oname_eqb a a = true.
+Lemma olab_eqb_refl a : olab_eqb a a = true.
 Proof. destruct a; cbn; [apply Nat.eqb_refl|reflexivity]. Qed.
+
+Lemma olabs_eqb_eq : forall l1 l2, olabs_eqb l1 l2 = true -> l1 = l2.
+Proof.
+  induction l1 as [|a l1 IH]; intros [|b l2] H; cbn in H; try discriminate; [reflexivity|].
+  apply andb_true_iff in H. destruct H as [H1 H2]. apply olab_eqb_eq in H1. subst. f_equal. apply IH. exact H2.
+Qed.
+
+Lemma olabs_eqb_refl l : olabs_eqb l l = true.
+Proof. induction l as [|a l IH]; cbn; [reflexivity|]. rewrite olab_eqb_refl, IH. reflexivity. Qed.
+
+Lemma oname_eqb_eq a b : oname_eqb a b = true -> a = b.
+Proof.
+  destruct a as [n ls], b as [m ms]. unfold oname_eqb. cbn [fst snd]. intros H.
+  apply andb_true_iff in H. destruct H as [H1 H2].
+  apply olab_eqb_eq in H1. apply olabs_eqb_eq in H2. subst. reflexivity.
+Qed.
+
+Lemma oname_eqb_refl a : oname_eqb a a = true.
+Proof. destruct a as [n ls]. unfold oname_eqb. cbn [fst snd]. rewrite olab_eqb_refl, olabs_eqb_refl. reflexivity. Qed.
 
 Lemma all2b_Forall2 {A B} (f : A -> B -> bool) l1 l2 :
   all2b f l1 l2 = true <-> Forall2 (fun a b => f a b = true) l1 l2.
@@ -380,7 +399,7 @@ Section Soundness.
   Lemma sound_step n k : sound_at n k -> sound_at (S n) (S k).
   Proof.
     intros IH G e T rho v Hi Hok He.
-    destruct e as [z|l|nm es|x|e1 i|e1 e2|e1|x e1 e2|x t e1 e2|x brs d|f e1]; cbn [infer eval] in Hi, He.
+    destruct e as [z|l|nm es|x|e1 i|e1 lb|e1 e2|e1|x e1 e2|x t e1 e2|x brs d|f e1]; cbn [infer eval] in Hi, He.
     - inversion Hi; inversion He; subst. reflexivity.
     - inversion Hi; inversion He; subst. reflexivity.
     - destruct (map_opt (infer fns k G) es) as [ts|] eqn:Et; [|discriminate].
@@ -393,6 +412,13 @@ Section Soundness.
       destruct (eval fns n rho e1) as [v1|] eqn:V1; [|discriminate].
       pose proof (IH _ _ _ _ _ E1 Hok V1) as Hm.
       destruct v1 as [| |nm' vs]; try discriminate. apply memb_tup in Hm. destruct Hm as [_ Hvs].
+      destruct (Forall2_nth_r' _ _ _ Hvs i v He) as [ti [Hti Hmi]]. rewrite Hti in Hi. inversion Hi; subst. exact Hmi.
+    - destruct (infer fns k G e1) as [t1|] eqn:E1; [|discriminate].
+      destruct t1 as [| |nm ts|]; try discriminate.
+      destruct (eval fns n rho e1) as [v1|] eqn:V1; [|discriminate].
+      pose proof (IH _ _ _ _ _ E1 Hok V1) as Hm.
+      destruct v1 as [| |nm' vs]; try discriminate. apply memb_tup in Hm. destruct Hm as [<- Hvs].
+      destruct (label_index lb (snd nm)) as [i|]; [|discriminate].
       destruct (Forall2_nth_r' _ _ _ Hvs i v He) as [ti [Hti Hmi]]. rewrite Hti in Hi. inversion Hi; subst. exact Hmi.
     - destruct (infer fns k G e1) as [[| | |]|]; try discriminate.
       destruct (infer fns k G e2) as [[| | |]|]; try discriminate.
@@ -500,7 +526,7 @@ Section Soundness.
   Lemma progress_step k : progress_at k -> progress_at (S k).
   Proof.
     intros IH G e T rho Hi Hok.
-    destruct e as [z|l|nm es|x|e1 i|e1 e2|e1|x e1 e2|x t e1 e2|x brs d|f e1]; cbn [infer eval] in *.
+    destruct e as [z|l|nm es|x|e1 i|e1 lb|e1 e2|e1|x e1 e2|x t e1 e2|x brs d|f e1]; cbn [infer eval] in *.
     - eauto.
     - eauto.
     - destruct (map_opt (infer fns k G) es) as [ts|] eqn:Et; [|discriminate].
@@ -511,6 +537,13 @@ Section Soundness.
       destruct (IH _ _ _ _ E1 Hok) as [v1 V1]. rewrite V1.
       pose proof (core_soundness _ _ _ _ _ _ _ E1 Hok V1) as Hm.
       destruct v1 as [| |nm' vs]; try discriminate. apply memb_tup in Hm. destruct Hm as [_ Hvs].
+      destruct (Forall2_nth_l' _ _ _ Hvs i T Hi) as [vi [Hvi _]]. eauto.
+    - destruct (infer fns k G e1) as [t1|] eqn:E1; [|discriminate].
+      destruct t1 as [| |nm ts|]; try discriminate.
+      destruct (IH _ _ _ _ E1 Hok) as [v1 V1]. rewrite V1.
+      pose proof (core_soundness _ _ _ _ _ _ _ E1 Hok V1) as Hm.
+      destruct v1 as [| |nm' vs]; try discriminate. apply memb_tup in Hm. destruct Hm as [<- Hvs].
+      destruct (label_index lb (snd nm)) as [i|]; [|discriminate].
       destruct (Forall2_nth_l' _ _ _ Hvs i T Hi) as [vi [Hvi _]]. eauto.
     - destruct (infer fns k G e1) as [t1|] eqn:E1; [|discriminate].
       destruct t1; try discriminate.
